@@ -245,6 +245,29 @@ def check_case(ctx, case):
                 if any(x != a for x in r2[1]) or r2[2] != exp_cx:
                     viol("active-changed", "active-geometry:derived-frame-alters-persisted-original",
                          [a, exp_cx], [r2[1], r2[2]])
+        # a second collection made from the same rows with another active column, while the first one
+        # is alive: each keeps its own active geometry
+        if others:
+            d2 = d.set_geometry(others[0])
+            bx = BOX[others[0]]
+            with dask.config.set(scheduler="synchronous"):
+                ok_, r3, tb_ = ctx.guarded(lambda: (lambda o_: (
+                    o_.geometry.name, ddf.geometry.name,
+                    [p_.geometry.name for p_ in dask.compute(*o_.to_delayed())],
+                    [p_.geometry.name for p_ in dask.compute(*ddf.to_delayed())],
+                    sorted(o_.cx[bx[0]:bx[1], bx[2]:bx[3]].compute()["rid"].tolist()),
+                    [f_.geometry.name for f_ in dask.compute(ddf, o_)]))(dd.from_pandas(d2, npartitions=npart)))
+            if not ok_:
+                rec_raise("dask-sibling-collection", r3, tb_)
+            else:
+                ctx.count("state_checks")
+                ctx.sig("dask-sibling-collection")
+                o2 = others[0]
+                exp3 = [o2, a, [o2] * len(r3[2]), [a] * len(r3[3]),
+                        sorted(twin(d2, o2).cx[bx[0]:bx[1], bx[2]:bx[3]]["rid"].tolist()), [a, o2]]
+                if list(r3) != exp3:
+                    viol("active-changed", "active-geometry:sibling-collection-of-same-rows-shares-active-column",
+                         exp3, list(r3))
         # Hilbert packing uses the active column
         with dask.config.set(scheduler="synchronous"):
             ok_, pk, tb_ = ctx.guarded(lambda: ddf.pack_partitions(npartitions=2, p=8).compute())
@@ -318,6 +341,10 @@ def check_case(ctx, case):
             elif op == "concat":
                 k = int(r.integers(0, n + 1))
                 new = pd.concat([df.iloc[:k], df.iloc[k:]]) if r.random() < 0.6 else pd.concat([df, df.iloc[:1]])
+                # probe: every input empty (the result has no rows but is still a frame of this kind)
+                if not check_state(pd.concat([df.iloc[:0], df.iloc[:0]] + ([df.iloc[:0]] if k % 2 else [])),
+                                   "concat-of-empty-frames", act):
+                    return
             elif op == "set_geometry":
                 cands = [c for c in geo_cols(df)]
                 a2 = cands[int(r.integers(len(cands)))]
